@@ -24,3 +24,23 @@ fn c18_unit_seconds_table() {
     kani::cover!(i == 8);
     kani::cover!(i == 0);
 }
+
+/// Sign clause of Duration::to_seconds ("with the correct sign"): for EVERY canonical duration the result is finite, zero
+/// exactly for the zero duration, negative exactly for negative durations, and lies between the whole seconds below and
+/// above the exact value (S <= r <= S + 1 with S = floor of the exact value; S and S + 1 are exact doubles).  Loop-free,
+/// complete.  (The few-ulp accuracy itself is beyond CBMC here, see above.)
+#[kani::proof]
+fn c18_to_seconds_sign_bracket() {
+    let c: i16 = kani::any();
+    let n: u64 = kani::any();
+    kani::assume(n < 3_155_760_000_000_000_000);
+    let d = crate::Duration { centuries: c, nanoseconds: n };
+    let r = d.to_seconds();
+    let s: i64 = c as i64 * 3_155_760_000 + (n / 1_000_000_000) as i64;
+    assert!(r.is_finite());
+    assert!((c == 0 && n == 0) == (r == 0.0));
+    assert!((c < 0) == (r < 0.0));
+    assert!(s as f64 <= r && r <= (s + 1) as f64);
+    kani::cover!(c == -1 && n == 3_155_759_999_999_999_999);
+    kani::cover!(c == 0 && n == 1);
+}
